@@ -1,9 +1,186 @@
 (* C15 - The HTTP transport delivers exactly the bytes and headers it was given.
-   Property theorems only (proved in the *Proofs files). *)
-From SV Require Import Lib.Base C15.Base64 C15.Model Gen.C15Tables.
+   Property theorems only: each is closed by `exact` of a lemma proved in the *Proofs files
+   and followed by Print Assumptions.
 
-(* the alphabet, scheme prefix and default SOAP headers regenerated from /repo by calling the
-   code are the documented ones: every theorem about std_params is about the implementation *)
+   Partial: sockets, urllib, http.client and http.cookiejar are run-time behaviour; the model
+   states what they do (urllib_outcome, u2_headers, the jar) and the loopback correspondence of
+   harness/c15.py checks it; the theorems below are about suds' own decision logic. *)
+From SV Require Import Lib.Base C15.Base64 C15.Model Gen.C15Tables.
+From SV Require Import C15.B64Proofs C15.Utf8Proofs C15.PipeProofs C15.TablesProofs.
+
+(* ------------------------------------------------------------------ *)
+(* the tables regenerated from /repo                                   *)
+(* ------------------------------------------------------------------ *)
+(* the base64 alphabet addcredentials uses (read off by calling it on the 64 single-sextet
+   credentials), the scheme prefix and _SoapClient's default headers are the standard ones.
+   A regression to the URL-safe alphabet (the defect fixed in abd7d42) breaks this theorem. *)
 Theorem repo_tables_are_the_standard_ones : impl_params = std_params.
-Proof. reflexivity. Qed.
+Proof. exact impl_is_std_l. Qed.
 Print Assumptions repo_tables_are_the_standard_ones.
+
+(* ------------------------------------------------------------------ *)
+(* codecs: for ALL byte lists / ALL strings of scalar values            *)
+(* ------------------------------------------------------------------ *)
+Theorem b64_roundtrip : forall bs, bytes_ok bs = true -> b64_decode (b64_encode std_alphabet bs) = Some bs.
+Proof. exact b64_roundtrip_l. Qed.
+Print Assumptions b64_roundtrip.
+
+Theorem b64_length : forall al bs, length (b64_encode al bs) = (4 * ((length bs + 2) / 3))%nat.
+Proof. exact b64_length_l. Qed.
+Print Assumptions b64_length.
+
+Theorem utf8_roundtrip : forall s, scalars s = true -> utf8_decode (utf8_encode s) = Some s.
+Proof. exact utf8_roundtrip_l. Qed.
+Print Assumptions utf8_roundtrip.
+
+Example codecs_nonvacuous :
+  bytes_ok [0; 255; 62; 63]%N = true /\ scalars [233; 8364; 128512; 1114111]%N = true /\
+  b64_encode std_alphabet [117; 58; 62; 62; 63]%N = [100; 84; 111; 43; 80; 106; 56; 61]%N.   (* "u:>>?" -> "dTo+Pj8=" *)
+Proof. repeat split; reflexivity. Qed.
+
+(* ------------------------------------------------------------------ *)
+(* credentials                                                         *)
+(* ------------------------------------------------------------------ *)
+(* every username (without ':', RFC 7617) and password over Unicode scalar values is
+   recovered exactly by a server doing standard base64 + UTF-8 + split at the first colon,
+   from the header value the implementation's alphabet produces *)
+Theorem credentials_recoverable : forall u p,
+  scalars u = true -> scalars p = true -> no_colon u = true ->
+  server_recovers (model_authorization impl_params u p) = Some (u, p).
+Proof. exact credentials_recoverable_impl_l. Qed.
+Print Assumptions credentials_recoverable.
+
+(* ... and that value is what the server finds under Authorization (any spelling) when the
+   preemptive transport sends a request whose own headers do not name it *)
+Theorem preemptive_credentials_on_the_wire : forall u p h,
+  scalars u = true -> scalars p = true -> no_colon u = true -> no_ci l_authorization h = true ->
+  exists v, dict_get l_authorization (u2_headers (add_credentials impl_params TBasicPre (Some u, Some p) h)) = Some v
+            /\ server_recovers v = Some (u, p).
+Proof. exact preemptive_credentials_impl_l. Qed.
+Print Assumptions preemptive_credentials_on_the_wire.
+
+(* no Authorization is invented: other transports, or a missing username/password, leave the headers alone *)
+Theorem no_credentials_no_header : forall P k c h,
+  (k = TPlain \/ k = TChallenge \/ fst c = None \/ snd c = None) -> add_credentials P k c h = h.
+Proof. exact no_credentials_no_header_l. Qed.
+Print Assumptions no_credentials_no_header.
+
+(* the limit of the Basic scheme itself, and the regression witness of the fixed defect *)
+Theorem colon_in_username_not_recoverable :
+  server_recovers (authorization std_alphabet [97; 58; 98]%N [99]%N) = Some ([97]%N, [98; 58; 99]%N).
+Proof. exact colon_in_username_l. Qed.
+Print Assumptions colon_in_username_not_recoverable.
+
+Theorem urlsafe_alphabet_refuted :
+  server_recovers (authorization urlsafe_alphabet [117]%N [62; 62; 63]%N) = None.
+Proof. exact urlsafe_credentials_lost_l. Qed.
+Print Assumptions urlsafe_alphabet_refuted.
+
+Example credentials_nonvacuous :
+  scalars [117; 233]%N = true /\ no_colon [117; 233]%N = true /\
+  server_recovers (model_authorization impl_params [117; 233]%N [58; 62; 63; 128512]%N)
+  = Some ([117; 233]%N, [58; 62; 63; 128512]%N).
+Proof. repeat split; reflexivity. Qed.
+
+(* ------------------------------------------------------------------ *)
+(* request: body and headers                                           *)
+(* ------------------------------------------------------------------ *)
+(* a server decoding by the Content-Encoding label gets the envelope back, for every header
+   dict and message, when the label is `gzip`, `deflate`, absent, or not a compression label.
+   (Spelled otherwise - "GZIP", or under the key "content-encoding" - the label is passed on
+   but the body is not compressed: see content_encoding_is_case_sensitive below.) *)
+Theorem body_fidelity : forall h msg,
+  label_plain (dict_get n_content_encoding h) = true ->
+  server_decodes (dict_get n_content_encoding h) (wire_body h msg) = Some msg.
+Proof. exact body_fidelity_l. Qed.
+Print Assumptions body_fidelity.
+
+Theorem credentials_keep_encoding : forall P k c h,
+  dict_get n_content_encoding (add_credentials P k c h) = dict_get n_content_encoding h.
+Proof. exact credentials_keep_encoding_l. Qed.
+Print Assumptions credentials_keep_encoding.
+
+Example content_encoding_is_case_sensitive :
+  let h := [(n_content_encoding, [71; 90; 73; 80]%N)] in          (* "GZIP" *)
+  label_plain (dict_get n_content_encoding h) = false /\
+  server_decodes (dict_get n_content_encoding h) (wire_body h 7%N) = None.
+Proof. split; reflexivity. Qed.
+
+(* Content-Type and SOAPAction arrive as _SoapClient set them unless the caller names them *)
+Theorem soap_defaults_delivered : forall action opts,
+  (no_ci l_content_type opts = true ->
+     dict_get l_content_type (u2_headers (soap_headers impl_params action opts)) = Some v_text_xml_utf8) /\
+  (no_ci l_soapaction opts = true ->
+     dict_get l_soapaction (u2_headers (soap_headers impl_params action opts)) = Some action).
+Proof. exact soap_defaults_impl_l. Qed.
+Print Assumptions soap_defaults_delivered.
+
+(* every caller header whose name is unique in the caller's map (case-insensitively) arrives
+   with exactly its value, wherever it stands in a map of any size *)
+Theorem caller_header_delivered : forall action pre post k1 v1,
+  no_ci (lower k1) pre = true -> no_ci (lower k1) post = true ->
+  str_eqb (lower k1) l_content_type = false -> str_eqb (lower k1) l_soapaction = false ->
+  dict_get (lower k1) (u2_headers (soap_headers impl_params action (pre ++ (k1, v1) :: post))) = Some v1.
+Proof. exact caller_header_impl_l. Qed.
+Print Assumptions caller_header_delivered.
+
+Theorem request_header_delivered : forall P kind c pre post k1 v1,
+  no_ci (lower k1) pre = true -> no_ci (lower k1) post = true ->
+  str_eqb (lower k1) l_authorization = false ->
+  dict_get (lower k1) (u2_headers (add_credentials P kind c (pre ++ (k1, v1) :: post))) = Some v1.
+Proof. exact request_header_delivered_l. Qed.
+Print Assumptions request_header_delivered.
+
+Example headers_nonvacuous :
+  dict_get [120; 45; 97]%N                                       (* "x-a" *)
+    (u2_headers (soap_headers impl_params [34; 34]%N [([88; 45; 65]%N, [49]%N)])) = Some [49]%N.
+Proof. reflexivity. Qed.
+
+(* ------------------------------------------------------------------ *)
+(* reply, errors, failures                                             *)
+(* ------------------------------------------------------------------ *)
+Theorem reply_fidelity : forall ce body gz zl,
+  (ce = None -> decode_reply ce body gz zl = RReply 200 body) /\
+  (forall p, ce = Some v_gzip -> gz = Some p -> decode_reply ce body gz zl = RReply 200 p) /\
+  (forall p, ce = Some v_deflate -> zl = Some p -> decode_reply ce body gz zl = RReply 200 p) /\
+  (forall v, ce = Some v -> str_eqb v v_gzip = false -> str_eqb v v_deflate = false ->
+             decode_reply ce body gz zl = RReply 200 body).
+Proof. exact reply_fidelity_l. Qed.
+Print Assumptions reply_fidelity.
+
+(* HTTPError -> TransportError carrying code and body, except 202/204 through send() *)
+Theorem error_mapping : forall code body,
+  (code <> 202%N -> code <> 204%N -> send_result (OHttpError code body) = RTransportError code body) /\
+  open_result (OHttpError code body) = RTransportError code body.
+Proof. exact error_mapping_l. Qed.
+Print Assumptions error_mapping.
+
+(* composed with urllib's 2xx / HTTPError split: every status outside 200..299 *)
+Theorem status_mapping : forall status ce body gz zl,
+  (is_2xx status = true ->
+     send_result (urllib_outcome status ce body gz zl) = decode_reply ce body gz zl) /\
+  (is_2xx status = false ->
+     send_result (urllib_outcome status ce body gz zl) = RTransportError status body /\
+     open_result (urllib_outcome status ce body gz zl) = RTransportError status body).
+Proof. exact status_mapping_l. Qed.
+Print Assumptions status_mapping.
+
+Theorem failures_propagate : forall e, send_result (OFail e) = RFail e /\ open_result (OFail e) = RFail e.
+Proof. exact failures_propagate_l. Qed.
+Print Assumptions failures_propagate.
+
+(* ------------------------------------------------------------------ *)
+(* URL and timeout                                                     *)
+(* ------------------------------------------------------------------ *)
+Theorem nonascii_url_rejected_before_io : forall url attempted,
+  (is_ascii url = false -> model_url_io url attempted = (UUnicodeError, 0%N)) /\
+  (is_ascii url = true -> fst (model_url_io url attempted) = UOk url).
+Proof. exact url_check_l. Qed.
+Print Assumptions nonascii_url_rejected_before_io.
+
+Theorem timeout_choice : forall rt ot,
+  (forall t, rt = Some t -> t <> 0%Z -> choose_timeout rt ot = t) /\
+  (rt = None -> choose_timeout rt ot = ot) /\
+  model_timeout MOpen rt ot = ot.
+Proof. exact timeout_choice_l. Qed.
+Print Assumptions timeout_choice.
